@@ -32,6 +32,7 @@ import time
 
 import numpy as np
 
+from vf import bigcases
 from vf import core
 from vf import callforms
 from vf import errorpaths
@@ -592,3 +593,4 @@ def run(ctx):
         "BFS over histories: from every distinct canonical state reached at depth d every operation of the operation alphabet is executed (one pristine forked process per history, whole history replayed), "
         "from both wisdom environments, to depth %d; non-trivial = histories of length >= 2 containing at least one solve; distinct = distinct histories; evaluations counts solver executions" % depth
     )
+    bigcases.run(ctx, "C12")
